@@ -66,7 +66,25 @@ fn strategy(tier: Tier) -> BoxedStrategy<Case> {
                     });
                 // every cell equal: the `small == large` branch
                 let flat = (-8i32..=8, bg_strategy(k, false, false)).prop_map(move |(v, bg)| MatSpec { rows: vec![vec![Fl(v as f32); k]; m], bg, regime: "all-equal".into() });
-                prop_oneof![4 => lib, 5 => fin, 1 => flat]
+                // every finite cell inside a short interval away from zero: the cell range is shorter than one
+                // unit (or a few), all cells have one sign, the smallest cell is not an integer
+                let narrow = (
+                    -12.0f32..=12.0,
+                    prop_oneof![Just(0.05f32), Just(0.3f32), Just(0.9f32), Just(2.5f32)],
+                    proptest::collection::vec(proptest::collection::vec(0.0f32..1.0, k), m),
+                    bg_strategy(k, true, true),
+                    any::<bool>(),
+                )
+                    .prop_map(move |(base, span, rows, bg, wild_inf)| {
+                        let mut rows: Vec<Vec<Fl>> = rows.into_iter().map(|r| r.into_iter().map(|u| Fl(base + span * u)).collect()).collect();
+                        if wild_inf {
+                            for r in rows.iter_mut() {
+                                r[k - 1] = Fl(f32::NEG_INFINITY);
+                            }
+                        }
+                        MatSpec { rows, bg, regime: "narrow-range".into() }
+                    });
+                prop_oneof![4 => lib, 5 => fin, 1 => flat, 2 => narrow]
             });
             let q = prop_oneof![
                 4 => any::<usize>().prop_map(Query::Attainable),
@@ -232,6 +250,8 @@ fn run<A: Alphabet>(case: &Case, tier_limit: usize, info: &mut CaseInfo) -> Opti
     info.class_if(bg[..k - 1].iter().any(|&x| (x - u).abs() > 1e-6), "non-uniform-background");
     info.class_if(case.queries.iter().any(|q| matches!(q, Query::Attainable(_))), "query-at-attainable-score");
     info.class_if(mass_excess > 0.0, "background-mass>1");
+    info.class_if(large - small.floor() < 1.0 && small != small.floor(), "all-cells-within-one-unit-interval");
+    info.class_if(small > 0.0 || large < 0.0, "all-cells-of-one-sign");
     None
 }
 
@@ -241,7 +261,7 @@ impl Sub for Dist {
         "meme-dist"
     }
     fn rule(&self) -> &'static str {
-        "DNA width 1..8 (quick) / ..16 (thorough, meet-in-the-middle), protein 1..3 / ..4, plus wider matrices for the structural parts; library-made and arbitrary finite cells (|cell| <= 32, rows of equal cells, finite or -inf wildcard column) x uniform / non-uniform / zero-entry / non-zero-wildcard backgrounds; 8..20 queries per matrix (attainable scores, midpoints, below min, above max, arbitrary) and up to 12 p-values; oracle: sf in [0,1] non-increasing, P(S>=s+d) <= pvalue(s) <= P(S>=s-d) against the exact enumeration with d=(M/2+1)/scale, pvalue monotone, pvalue(score(p)) <= p; non-trivial = exact oracle available, M >= 2, >= 3 distinct attainable scores and a query strictly inside (min, max)"
+        "DNA width 1..8 (quick) / ..16 (thorough, meet-in-the-middle), protein 1..3 / ..4, plus wider matrices for the structural parts; library-made and arbitrary finite cells (|cell| <= 32, rows of equal cells, finite or -inf wildcard column; also cells confined to a short interval base + [0, 0.05..2.5) away from zero, so that all cells have one sign and may share one unit interval) x uniform / non-uniform / zero-entry / non-zero-wildcard backgrounds; 8..20 queries per matrix (attainable scores, midpoints, below min, above max, arbitrary) and up to 12 p-values; oracle: sf in [0,1] non-increasing, P(S>=s+d) <= pvalue(s) <= P(S>=s-d) against the exact enumeration with d=(M/2+1)/scale, pvalue monotone, pvalue(score(p)) <= p; non-trivial = exact oracle available, M >= 2, >= 3 distinct attainable scores and a query strictly inside (min, max)"
     }
     fn cases(&self, tier: Tier) -> u64 {
         tier.pick(10_000, 300_000)
